@@ -1,5 +1,5 @@
 SPECIFICATION Spec
 CONSTANTS MaxLen = 5 Wide = FALSE
-  Kinds <- AllKinds
+  Kinds <- ThoroughKinds
 INVARIANT Emitted
 CHECK_DEADLOCK FALSE
